@@ -43,6 +43,9 @@ CH["C13"] = dict(level="exploration", design="3/C13", technique="deterministic s
 CH["C14"] = dict(level="exploration", design="3/C14", technique="deterministic simulation: real reader endpoint (either role, real handshake) against a reference frame-encoder stub over a sim transport with cuts and segmentation; RFC 6455 receiver state machine as model",
    text="Seeded search over frame sequences (random over the abstract alphabet opcode x FIN x RSV x mask x length form incl. 2^31, 2^63-1, 2^63, 2^64-1, and valid conversations with one injected oddity) x role x read limit relative to sizes x cut at any offset x read segmentation x buffer size x read API. Oracle: delivered messages equal the model's up to the first violation; there the read fails, stays failed with the same error, and the endpoint's recorded replies parse as pongs (identical payloads, in order) followed by exactly one Close 1002; top-bit lengths never deliver anything; limit breaches give ErrReadLimit under any fragmentation; cuts end in an error. Sampling, not proof.",
    note="Trusted: reference encoder/parser, the receiver model (unbounded-integer accounting). Deliberately not demanded: limit-breach status code, 1-byte close body, codes 1012-1014, text UTF-8 validation.")
+CH["C15"] = dict(level="exploration", design="3/C15", technique="deterministic simulation: tape-driven scheduler inside a testing/synctest bubble (fake clock, lock-blocked tasks detected by quiescence), yield points at every transport write incl. between the two buffers of one frame, stall faults past control deadlines; same task set on raw-futex gates under the race detector",
+   text="Seeded search over interleavings of one data writer (multi-frame and two-buffer frames), a reader answering pings, up to 4 control-frame senders with zero/generous/tight deadlines and a closer, with stall faults advancing the fake clock while a lock holder is parked. Oracle on the recorded transport writes (with the writing task of each): the bytes parse as whole RFC 6455 frames; a transport write that starts inside a frame comes from the task that began it; data messages whose call returned nil are on the wire intact and in order; each control call that returned nil has its (uniquely tagged) frame exactly once, each failing/timed-out one not at all; nothing follows a Close frame and every message-completing call invoked after it returns ErrCloseSent. Race phase: same tasks, futex gates at API boundaries, -race; reports naming two go-oryx-lib accesses are violations.",
+   note="Trusted: synctest quiescence detection; reference frame parser; race detector. Harness code inside race-engine tasks avoids fmt/sync.Pool so that it adds no happens-before edges.")
 def main():
     import os
     extra = {}
